@@ -130,7 +130,9 @@ func runCaseInProcess(seed int64, index int, tier string, env *run.Env) run.Case
 	w.t0 = time.Now()
 	w.startProc()
 	w.startPlanActors()
+	quiesced := true
 	if !w.waitQuiescent(quiescenceTimeout) {
+		quiesced = false
 		res.Verdict = run.Inconclusive
 		res.Note = "no quiescence within " + quiescenceTimeout.String()
 	}
@@ -139,11 +141,12 @@ func runCaseInProcess(seed int64, index int, tier string, env *run.Env) run.Case
 	restartAtEnd = len(w.rsvLost) > 0
 	cur := w.cur
 	w.mu.Unlock()
-	if restartAtEnd && res.Note == "" {
+	if restartAtEnd && quiesced {
 		cur.stop()
 		w.count("planned_restarts", 1)
 		w.startProc()
 		if !w.waitQuiescent(quiescenceTimeout) {
+			quiesced = false
 			res.Verdict = run.Inconclusive
 			res.Note = "no quiescence after the planned restart within " + quiescenceTimeout.String()
 		}
@@ -170,7 +173,7 @@ func runCaseInProcess(seed int64, index int, tier string, env *run.Env) run.Case
 	}
 	wall := time.Since(w.t0)
 
-	vios, finals, lin := w.evaluate(res.Verdict == run.Inconclusive && res.Note != "" && raceEnabled)
+	vios, finals, lin := w.evaluate(!quiesced)
 	for _, l := range lin {
 		if l.Result == "unknown" {
 			if res.Verdict == run.Held {
@@ -372,6 +375,31 @@ func (w *world) evaluate(skip bool) (vios []run.Violation, finals []groupFinal, 
 			} else {
 				add("quiescent", "quiescent:pending-consumer-without-reservation:"+kind+lost,
 					fmt.Sprintf("group %s on node %s: pods %v carry the group but there is no reservation pod at quiescence.%s\n    history of the group:\n      %s", g, gp.Node, live, crashNote, hist))
+			}
+		}
+		// (1b) direct clause on every completed sync: a sync that ran while the group had no reservation pod at all and
+		// a consumer carried the group in phase Running during the whole sync must have deleted that consumer
+		for _, o := range byGroup[g] {
+			if o.Kind != "sync" || !o.OK || o.DelRsv || len(o.DelPods) > 0 {
+				continue
+			}
+			reserved := false
+			for _, sp := range w.rsvSpans[g] {
+				if sp.From <= o.Ret && (sp.To == 0 || sp.To >= o.Call) {
+					reserved = true
+				}
+			}
+			if reserved {
+				continue
+			}
+			for pod, spans := range w.runSpans[g] {
+				for _, sp := range spans {
+					if sp.From < o.Call && (sp.To == 0 || sp.To > o.Ret) {
+						add("history", "history:sync-left-running-consumer-without-reservation:"+w.kindOf([]string{pod})+lost,
+							fmt.Sprintf("group %s: %s returned without deleting anything although no reservation pod of the group existed during the call and %s carried the group in phase Running during the whole call.%s\n    history of the group:\n      %s",
+								g, o.String(), pod, crashNote, hist))
+					}
+				}
 			}
 		}
 		// (1) history check
